@@ -203,7 +203,7 @@ def meta(tier):
         'rule': 'one-slot: every ordered pair of variants whose single slot is any subset of size <=2 (thorough 3) of the 13 alternative '
                 'kinds (at most one numeric-like kind per set) x all 18 operand texts x mnemonic case; two-slot: variants over a '
                 'reduced subset list, with and without an explicitly listed combination and a disallowed pair (also both at once, for the same pair of operand ids), x pairs of 8 texts; '
-                'three variants over a reduced list; renaming differential: 11 operand sets (also ones with two alternatives of the same kind) x all texts, '
+                'three variants over a reduced list; numeric-enumeration sets: a numeric enumeration (by code / by argument) next to two registers in 3 definition orders x 6 texts (a register name is a register, not the expression of the enumeration); renaming differential: 11 operand sets (also ones with two alternatives of the same kind) x all texts, '
                 'operand ids spelled in alphabetical and in reverse alphabetical order, same encoding required; expected = opcode of the first accepting variant + code of the chosen '
                 'alternative (+ argument), or rejection; non-trivial = statement that more than one variant or more than one '
                 'alternative of a set could accept syntactically; distinct by construction',
@@ -323,7 +323,8 @@ def codes(n, start=8):
 
 def shard(acc, tier, idx, n):
     q = tier == 'quick'
-    renaming(acc, idx, n, 0)
+    c0 = renaming(acc, idx, n, 0)
+    numeric_enumeration_sets(acc, idx, n, c0)
     ctr = 0
     subs = subsets(2 if q else 3)
     one_texts = [(t,) for t in TEXTS]
@@ -488,6 +489,38 @@ def renaming(acc, idx, n, ctr0):
             if msg:
                 acc.violation(cases, spec, f'rn {text} with operand set {list(alts)}: {msg}', outs)
             acc.judge(clause='names-carry-no-meaning', nontrivial_distinct=True)
+    return ctr
+
+
+def numeric_enumeration_sets(acc, idx, n, ctr0):
+    """An operand set that holds a numeric enumeration (keys are numbers / expressions) next to registers: a register name is a
+    register, never the enumeration's expression, in either definition order."""
+    ctr = ctr0
+    ne = {'type': 'numeric_enumeration', 'bytecode': {'size': 4, 'value_dict': {1: 5, 2: 6}}}
+    ne_arg = {'type': 'numeric_enumeration', 'argument': {'size': 8, 'byte_align': True, 'value_dict': {1: 0x51, 2: 0x52}}}
+    ra = {'type': 'register', 'register': 'a', 'bytecode': {'value': 9, 'size': 4}}
+    rb = {'type': 'register', 'register': 'b', 'bytecode': {'value': 10, 'size': 4}}
+    expect = {'a': [0xB2, 0x90], 'A': [0xB2, 0x90], 'b': [0xB2, 0xA0]}
+    for which, nedef in (('code', ne), ('argument', ne_arg)):
+        exp = dict(expect)
+        exp.update({'1': [0xB2, 0x50], '2': [0xB2, 0x60], 'lbl - 8': [0xB2, 0x50]} if which == 'code' else
+                   {'1': [0xB2, 0x51], '2': [0xB2, 0x52], 'lbl - 8': [0xB2, 0x51]})
+        for order in (('ne', 'ra', 'rb'), ('ra', 'ne', 'rb'), ('rb', 'ra', 'ne')):
+            defs = {'ne': nedef, 'ra': ra, 'rb': rb}
+            isa = {'general': {'address_size': 16, 'endian': 'big', 'registers': REGS, 'min_version': '0.3.0'},
+                   'operand_sets': {'mix': {'operand_values': {k: defs[k] for k in order}}},
+                   'instructions': {'op': {'bytecode': {'value': 0xB2, 'size': 8}, 'operands': {'count': 1, 'operand_sets': {'list': ['mix']}}}}}
+            for text, data in exp.items():
+                ctr += 1
+                if ctr % n != idx:
+                    continue
+                case = Case(isa, f'lbl = 9\n    op {text}\n', isa_yaml=True)
+                out = acc.run(case)
+                spec = {'expect': 'OK', 'image_hex': bytes(data).hex(), 'statement': f'op {text}', 'set_order': list(order)}
+                msg = judge_expect(spec, [out])
+                if msg:
+                    acc.violation([case], spec, f'op {text} with operand set order {order} ({which} enumeration): {msg}', [out])
+                acc.judge(clause='register-not-numeric', nontrivial_distinct=True)
     return ctr
 
 
